@@ -79,6 +79,10 @@ def dec(value):
                 return uuid.UUID(value['__uuid__'])
             if '__exc__' in value:
                 return ValueError(value['__exc__'])
+            if '__lock__' in value:
+                import threading
+
+                return threading.Lock()  # something that cannot be copied, pickled or dumped
             if '__done_future__' in value:
                 # a handle to something that has already happened (e.g. child.future()): a value like any other
                 fut = asyncio.get_event_loop().create_future()
@@ -215,6 +219,12 @@ class ProgListener(ProcessListener):
                     # a one-shot listener: it has heard what it waited for and takes itself off the process
                     process.remove_process_listener(self)
                     w.extra.setdefault('unsubscribed', []).append((name, cnt))
+                elif do[0] == 'checkpoint':
+                    # a listener that checkpoints the process whenever it is told about a change (what a persister hooked
+                    # up to the notifications does); a failing save is the listener's failure
+                    from plumpy import persistence
+
+                    w.extra.setdefault('listener_checkpoints', []).append(persistence.Bundle(process))
                 elif do[0] == 'raise_cancelled':
                     # the listener awaited/read something that was cancelled: not an error of the process, and not an
                     # Exception either
@@ -549,7 +559,7 @@ class ProgBase(HookMixin, ContextMixin, Process):
                 return cmds['Kill']()  # the command with its default: no message at all
             return cmds['Kill'](MessageBuilder.kill(ret[1]))
         if kind == 'raise':
-            exc = ProgError(ret[1])
+            exc = ProgError(dec(ret[1]))
             world.cur().extra.setdefault('raised', []).append(exc)
             raise exc
         raise ValueError(f'unknown ret {ret}')
@@ -777,6 +787,14 @@ def make_class(program, base=None):
         namespace[step_name(idx)] = _make_step(idx, bool(step.get('async')))
     if program.get('eager_waiting') or program.get('interruptible_running') or program.get('sampling_waiting') or program.get('failing_state_exit'):
         namespace['get_state_classes'] = classmethod(_eager_state_classes)
+    if program.get('value_eq') is not None:
+        # processes that compare by value (jobs ordered / de-duplicated by a priority): equal is not identical
+        rank = program['value_eq']
+        namespace['__eq__'] = lambda self, other: isinstance(other, Process) and getattr(other, 'PROGRAM', {}).get('value_eq') == rank
+        namespace['__hash__'] = lambda self: hash(('rank', rank))
+    if program.get('falsy'):
+        # a container-like process that is (still) empty: falsy, but a process
+        namespace['__len__'] = lambda self: 0
     cls = type(name, (base or (CodecProg if program.get('codec') else ProgBase),), namespace)
     if program.get('eager_waiting') or program.get('interruptible_running') or program.get('sampling_waiting') or program.get('failing_state_exit'):
         cls._pv_eager_owner = cls
